@@ -31,6 +31,10 @@ CLAIMED = {
             "Kernel-checked: translation adds v and fixes infinity; rotation(a) is ccw and additive (over R via cos_add/sin_add); rotation(a,axis): R^T R = 1, det R = 1, R a = a, tr R = 1+2c for unit axes and c^2+s^2 = 1; reflection = classical mirror image (2-D, 3-D); from_points maps the frame (every n). Tied by a differential run: exact model matrices vs the implementation (axes in all octants, axis points of any homogeneous scale, oblique mirrors, non-affine frames, from_points_and_conics).",
             NOTE_COMMON + "cos/sin/atan2/norm trusted (few ulp); from_points_and_conics is decided by correspondence only.",
             "DESIGN.md 7/C08"),
+    "C19": ("Lean 4: model of _get_index_mapping/normalize_index vs an independent model of NumPy's indexing semantics: complete kernel-evaluated table (<=3 components, rank<=4) on the agreeing fragment + kernel-checked counterexamples outside it; type read-off and transpose lemmas (induction-free list reasoning); affine point arithmetic; correspondence: arithmetic with all operand pairings / ufunc routes, exhaustive index expressions (thorough)",
+            "Kernel-checked: on the fragment (no >=2-D mask, no integer or None together with an array index) the code's axis mapping equals NumPy's for every index expression of <=3 components and rank <=4 (finite table, labelled as such), is provably different on three witnesses outside it (known findings KF-C19-1/2/3, replayed on the implementation every run); index types are read off the mapping; transpose types; point +/- is affine with points at infinity as directions. Tied by differential runs: value = numpy's own array[index], types = reference model (itself cross-checked against numpy's result ndim), arithmetic for Tensor/Point/Quadric x tensor/array/list/scalar x operator/ufunc.",
+            "Trusted: Lean kernel + standard axioms; numpy's array[index] as value reference; the harness. The unbounded-length statement for basic indexing is not proved (finite table only); elementwise arithmetic on arrays is decided by correspondence.",
+            "DESIGN.md 7/C19"),
     "C20": ("Lean 4: formulas, tables and branch conditions of det/adjugate/inv/hat_matrix/roots are regenerated from utils/math.py by an ast translator and proved against Mathlib's Matrix.det/adjugate and the cubic identities (ring, field_simp, linear_combination with kernel-checked certificates); correspondence over n=2..5 and batch sizes around the thresholds",
             "Kernel-checked about the code's own text: det2/Sarrus = Matrix.det, 2x2 gather tables = Matrix.adjugate, slice sign flips = (-1)^(i+j) for all n, thresholds, Laplace model A adj A = det A I (n=2,3,4) and for every n in Mathlib, hat_matrix(x) v = v x x, roots: linear, quadratic (with Vieta), depressed-cubic reduction, Cardano and trigonometric branches all three roots, triple root. Tied additionally by a differential run (int/float/complex, singular matrices, batch 1/2/63/64/65, prescribed roots incl. repeated).",
             "Trusted: Lean kernel + standard axioms; translator A (tools/extract.py); LAPACK/SVD (null_space, orth and the LAPACK branches of det/inv are decided by correspondence only: exact rank from the model, A Q = 0, orthonormality); cbrt/sqrt/cos/arccos enter the theorems as numbers constrained by their defining identities.",
